@@ -47,5 +47,6 @@ INVARIANTS
   C05_MnWorkersIdle
   C01_OutcomeAtRest
   C02_QuiescentOk
+  C08_OthersNotStuck
 PROPERTIES
   StepProps
